@@ -141,6 +141,18 @@ var specC12 = reg(&checkSpec{
 	nontrivial: func(c *cluster) bool { return c.stats.has("snapshot-after-config-change") },
 })
 
+var specC17 = reg(&checkSpec{
+	prop: "C17", profiles: []string{"chaos", "member", "crash", "snap", "elect", "repl"},
+	deciding: []string{"converge", "stability"},
+	avail:    true,
+	setup:    func(c *cluster) { c.strandedDeciding = true },
+	rule:     "non-trivial: the fault history contained >=2 faults (crash/stop/sever/isolate/cut) and the availability phase left a minority out, or a follower with a live leader was sent a vote request without transfer permission; distinct by trace hash",
+	nontrivial: func(c *cluster) bool {
+		return (c.stats.count("fault") >= 2 && c.stats.has("closing")) || c.stats.has("stability-judged")
+	},
+})
+
+func TestVerif_C17(t *testing.T) { corpusReplay(t, specC17); runSpec(t, specC17) }
 func TestVerif_C09(t *testing.T) { corpusReplay(t, specC09); runSpec(t, specC09) }
 func TestVerif_C10(t *testing.T) { corpusReplay(t, specC10); runSpec(t, specC10) }
 func TestVerif_C12(t *testing.T) { corpusReplay(t, specC12); runSpec(t, specC12) }
